@@ -82,7 +82,7 @@ def conclude(ctx, level, explanation, extract_meta, trusted_base=None, exhaustiv
             listed.append(v)
         else:
             new.append(v)
-    ev_dir = os.path.join(VERIF, "evidence")
+    ev_dir = os.environ.get("VERIF_EVIDENCE_DIR") or os.path.join(VERIF, "evidence")
     rp_dir = os.path.join(ev_dir, "replay")
     os.makedirs(rp_dir, exist_ok=True)
     # stale replay files of this property
